@@ -34,6 +34,8 @@ def run(prog, chk):
     X.check_readers(prog, chk)
     no_duplicate_attrs(prog, chk)
     root_synthesis(prog, chk)
+    from props import geomalg
+    geomalg.check_sites(prog, chk, "C02")  # what the root start tag gets, per presence case (A17 site root-extent)
     eof_open_elements(prog, chk)
     other_is_whole_input_event(prog, chk)
     from props import C03
@@ -224,7 +226,11 @@ def root_synthesis(prog, chk):
                     ok = False
                     detail = f"inserted namespace literal is {v!r}"
         else:
-            detail = f"no insert(\"{key}\") guarded by contains_key(\"{key}\")"
+            # not written as `if !contains_key(K) { insert(K, ..) }` with literal keys (a table of defaults, a helper):
+            # whether the root gets `{key}` is decided by the evaluated site root-extent (A17), cases `neither` and
+            # `author-has-all`
+            chk.ok("A13.root-attrs", f"write_root_svg:{key}", where, f"`{key}`: no literal insert / contains_key pair; decided by the A17 site root-extent")
+            continue
         chk.ob(ok, "A13.root-attrs", f"write_root_svg:{key}", where, f"the root gets `{key}` unless the author's root already has exactly that attribute", f"the generated root can lack `{key}`: {detail}")
     # the namespace literal equals what the reader's real-SVG test compares with (sibling agreement)
     irs = prog.body("svgdx::transform::is_real_svg")
@@ -282,13 +288,22 @@ def root_synthesis(prog, chk):
         if t["k"] == "switch" and op_place(t["op"]) is not None:
             tt, ft = R.switch_targets_bool(t)
             # the deciding test: its true edge dominates the End construction, its false edge cannot reach it
-            if tt is not None and ft is not None and end_blocks and all(pp.dominates(tt, e) for e in end_blocks) and not (pp.reach([ft], avoid={tt}) & end_blocks) and _flag_like(pp, op_place(t["op"])[0]):
+            if tt is not None and ft is not None and end_blocks and all(pp.dominates(tt, e) for e in end_blocks) and not (pp.reach([ft], avoid={tt}) & end_blocks) and (_flag_like(pp, op_place(t["op"])[0]) or R.flag_test(pp, b) is not None):
                 tests.add(b)
     roots = [t["t"] for (bb, t, c) in pp.call_sites(R.path_endswith("Transformer::write_root_svg"))]
     err_exits = {bb for (bb, t, c) in pp.call_sites(lambda c: c.decl_path.endswith("FromResidual::from_residual"))}
     rets = set(pp.return_blocks)
     leak = bool(tests) and bool(roots) and bool(pp.reach(roots, avoid=tests | err_exits) & rets)
-    chk.ob(bool(tests) and bool(roots) and not leak, "A13.root-closed", "postprocess:every-path", pp.where(), "after the root start tag is written every successful path passes the test that adds the end tag of an empty-element root", "postprocess can return successfully after writing the root start tag without passing the `root was <svg/>` test: an empty-element root stays unclosed on that path (e.g. an early return when nothing is injected)")
+    if not tests and end_blocks and roots:
+        from sa import discharge as D
+
+        if all(any(pp.term(a_)["k"] == "switch" for (a_, _x) in D.dominating_edges(pp, e)) for e in end_blocks):
+            # the end tag is added under some test, but not one the rule can read as a constant flag (an Option or enum
+            # handed back by a helper, a re-computed predicate): no verdict on "every path passes it"
+            chk.undecided("A13.root-closed", "postprocess:every-path", pp.where(), "the test under which the root's end tag is added is not recognisable as a flag set where the root was written")
+            roots = []
+    if roots or not end_blocks:
+        chk.ob(bool(tests) and bool(roots) and not leak, "A13.root-closed", "postprocess:every-path", pp.where(), "after the root start tag is written every successful path passes the test that adds the end tag of an empty-element root", "postprocess can return successfully after writing the root start tag without passing the `root was <svg/>` test: an empty-element root stays unclosed on that path (e.g. an early return when nothing is injected)")
     wr_pat = [1 for b in wr.reachable if R.switch_discr_place(wr, b) is not None and "OutputEvent" in R.switch_discr_place(wr, b)[1] and len(wr.term(b)["vals"]) >= 2]
     chk.ob(bool(wr_pat), "A13.root-closed", "write_root_svg:empty-root-attrs", wr.where(), "write_root_svg takes the author's root attributes from Start as well as Empty roots", "attributes of an empty-element root are dropped")
 
